@@ -139,6 +139,14 @@ R5 = {
 }
 for k in claimed:
     claimed[k]["text"] += R5.get(k, "")
+# Round 7 supplements.
+R7 = {
+ "C02": " Round 7: array/string `copy` pushes the initial part of the destination that was overwritten (dst[:n], n the result of the copy or len(src)), never the whole destination (OP-COPYEXTENT, on the SSA form of the registered operator).",
+ "C20": " Round 7: the candidates of the fraction search are ranked by the error of the value written, |p/q - x|: the term handed to math.Abs is evaluated at sample points for every denominator and compared with |round(x*q)/q - x| (NUM-FRAC); a ranking by the error of the numerator prefers small denominators and breaks the 1/214 bound.",
+ "C10": " Round 7: the ranking clause of NUM-FRAC (see C20) is checked under this property too.",
+}
+for k in claimed:
+    claimed[k]["text"] += R7.get(k, "")
 # Round 6: limits of the approach, stated where a reader of the manifest sees them.
 R6 = " Limits: the check is silent on the unchanged tree and on the 680 stored behaviour-preserving patches (three documented exceptions, DESIGN §12); on a previously unseen combined restructuring of the anchored code about half of the commits raised a (diagnosable) false alarm when first run (rounds 5 and 6), on a single-step clean-up about 8% (round 4)."
 for k in claimed:
